@@ -135,7 +135,7 @@ class Script(object):
         sc = self.sess['scripts'][i] if i < len(self.sess['scripts']) else []
         o = sc[k - 1] if k <= len(sc) else DEFAULT_FAIL
         if self.gate is not None:
-            self.gate.block(i)
+            self.gate.block(i, inv)
         if 'oserror' in o:
             return drive.Outcome(oserror=o['oserror'])
         if o.get('interrupt'):
@@ -326,16 +326,16 @@ class Controller(threading.Thread):
             rb_exec.BenchmarkThread = self._orig_cls
 
     # -- called from the scripted process (subprocess thread of a worker)
-    def block(self, run):
+    def block(self, run, inv=None):
         ev = threading.Event()
         with self.cv:
             if self.T is None:
                 # sequential phase in the main thread (exclusive runs): nothing to interleave
-                self.steps.append(['start', run])
+                self.steps.append(['start', run, inv])
                 self.steps.append(['finish', run])
                 return
             self.blocked[run] = ev
-            self.steps.append(['start', run])
+            self.steps.append(['start', run, inv])
             self.cv.notify_all()
         if not ev.wait(60):
             self.error = 'blocked process of run %s was never released' % run
